@@ -8,3 +8,4 @@ INVARIANT ReportOrderOk
 INVARIANT ReportOnce
 INVARIANT Terminated
 CHECK_DEADLOCK FALSE
+INVARIANT ReportFullyResolved
